@@ -629,6 +629,14 @@ def gen_case(rng):
     while True:
         r = rng.random()
         phase = gens.synthetic_phase(rng, noise=(0.0 if r < .5 else float(rng.uniform(0, .25))), reversals=bool(r > .75))
+        if rng.random() < .2:
+            # "arbitrary phases": samples next to a wrap that leave [0, 2pi] by a little (filter ringing, interpolation, added noise)
+            phase = np.array(phase, dtype=float)
+            w = np.where(np.abs(np.diff(phase)) > np.pi)[0]
+            for i in w[rng.random(len(w)) < .5]:
+                # first sample of the next cycle slightly below 0 (a maximum above 2pi would make the library re-wrap the whole
+                # series first - documented, and not what is modelled here)
+                phase[i + 1] = -float(rng.uniform(1e-3, .2))
         step = float(gens.pick(rng, [1.5 * np.pi, 1.5 * np.pi, np.pi, 1.9 * np.pi]))
         ref = RefCycles(phase, step)
         if ref.K >= 1:
